@@ -3,7 +3,7 @@
    legacy = false: the code after fix C03-1, legacy = true: the `probe==-1` test before it).
    Spec: C03_Spec.v (key-sorted list as finite map, set' = sort(new ++ not-deleted old), linear finds). *)
 From Coq Require Import List ZArith NArith Bool Permutation Sorted.
-From DuneV Require Import C03_Model C03_Spec C03_Proofs.
+From DuneV Require Import C03_Params C03_Model C03_Spec C03_Proofs.
 Import ListNotations.
 Local Open Scope Z_scope.
 
@@ -161,3 +161,113 @@ Example C03_audit_ops_nonvacuous :
      C03Bits [true; false]; C03Bits [false; true]; C03Bits [false; true]; C03Bits [false; true]; C03Bits [true; false];
      C03Bits [false; true; true; false; true; false; false; true; true; false; true; false]].
 Proof. vm_compute. split; reflexivity. Qed.
+
+(* ==== proof-deepening round ==== *)
+
+(* ---- the source as read by tools/params.d/C03.py carries fix C03-1 (no `probe==-1` "no entries" test), and the refinement
+   theorem holds for the model instantiated with the literals re-read from the source (start values of low/probe, seqNo_(0),
+   renumbering from 0 enter through c03_init / c03_search / c03_step): an edit of these literals breaks these two proofs *)
+Theorem C03_source_has_fix : c03_param_legacy_probe_test = false.
+Proof. exact (eq_refl false). Qed.
+Print Assumptions C03_source_has_fix.
+Theorem C03_refines_spec_source : forall ops : list c03_op,
+  Z.of_nat (c03_adds ops) <= 2 ^ 30 -> c03_defined ops = true ->
+  snd (c03_run true c03_param_legacy_probe_test c03_init ops) = snd (c03_spec_run c03s_init ops).
+Proof. exact c03_refines_spec_lemma. Qed.
+Print Assumptions C03_refines_spec_source.
+
+(* ---- THE STATE INVARIANT, for ALL histories (rejected and undefined operations included, no size bound, both spellings of
+   the "no entries" test), checking enabled: the stored pairs are always ordered by (global, attribute); pending new pairs
+   are VALID; in GROUND state every stored pair is VALID and nothing is pending; the size is bounded by the number of adds *)
+Theorem C03_invariant : forall (legacy : bool) (ops : list c03_op),
+  let st := fst (c03_run true legacy c03_init ops) in
+  Sorted c03_key_le (c03_local st) /\ c03_all_valid (c03_fresh st) /\ (c03_resize st = false -> c03_all_valid (c03_local st) /\ c03_fresh st = []) /\ (length (c03_local st) + length (c03_fresh st) <= c03_adds ops)%nat.
+Proof. exact c03_invariant_lemma. Qed.
+Print Assumptions C03_invariant.
+
+Example C03_invariant_nonvacuous :
+  let st := fst (c03_run true false c03_init [C03Begin; C03Add 7 0 0 true; C03Add 3 1 1 false; C03End; C03Add 1 1 1 true;
+                                              C03Begin; C03MarkDeleted 0; C03MarkDeleted 9; C03Begin; C03End; C03Renumber]) in
+  c03_resize st = false /\ c03_local st = [C03Pair 7 0 0 true false] /\ c03_seq st = 2.
+Proof. vm_compute. repeat split; reflexivity. Qed.
+
+(* ---- iteration order after ANY history: strictly ascending global index whenever the stored globals are pairwise distinct
+   (no sortedness hypothesis; with equal globals the order by (global, attribute) is the first clause of C03_invariant) *)
+Theorem C03_iteration_strict : forall (legacy : bool) (ops : list c03_op),
+  let l := c03_local (fst (c03_run true legacy c03_init ops)) in
+  NoDup (map c03_g l) -> StronglySorted c03_g_lt l.
+Proof. exact c03_iteration_strict_lemma. Qed.
+Print Assumptions C03_iteration_strict.
+
+(* ---- lookups after ANY history (no sortedness hypothesis: the code establishes it), every size incl. 0 and 1,
+   checked access (at), unchecked access (operator[]), existence test, const and non-const overloads *)
+Theorem C03_lookup_after_history : forall ops : list c03_op,
+  Z.of_nat (c03_adds ops) <= 2 ^ 30 ->
+  let l := c03_local (fst (c03_run true false c03_init ops)) in
+  forall g,
+    c03_exists false l g = C03Bool (existsb (c03s_has g) l) /\ c03_at false l g = match find (c03s_has g) l with Some p => C03PairOut p | None => C03RangeError end /\ c03_at_c false l g = c03_at false l g /\ (forall p, find (c03s_has g) l = Some p -> c03_get l g = C03PairOut p /\ c03_get_c l g = C03PairOut p).
+Proof. exact c03_lookup_history_lemma. Qed.
+Print Assumptions C03_lookup_after_history.
+
+(* the two spellings of the comparison in the five copies of the binary search (`global <= x.global()` in the const
+   overloads, `x.global() >= global` in the others) compute the same thing, unconditionally *)
+Theorem C03_const_paths_agree : forall (legacy : bool) (l : list c03_pair) (g : Z),
+  c03_at_c legacy l g = c03_at legacy l g /\ c03_get_c l g = c03_get l g.
+Proof. exact c03_const_paths_lemma. Qed.
+Print Assumptions C03_const_paths_agree.
+
+(* ---- "contains exactly the pairs added and not deleted", on the MODEL, for one whole resize phase with the adds and the
+   marks in any interleaving: beginResize; body; endResize from a ground state gives a ground state whose content is a
+   permutation of  added ++ (old without the marked positions), ordered, all VALID, counter + 1.
+   (C03_invariant supplies the hypotheses in every reachable ground state, so phases compose over a history.) *)
+Theorem C03_resize_phase : forall (legacy : bool) (st : c03_state) (body : list c03_op),
+  c03_resize st = false -> c03_fresh st = [] -> Sorted c03_key_le (c03_local st) -> c03_all_valid (c03_local st) ->
+  forallb (c03_is_phase_op (length (c03_local st))) body = true ->
+  let st' := fst (c03_run true legacy st ([C03Begin] ++ body ++ [C03End])) in
+  c03_resize st' = false /\ c03_fresh st' = [] /\ c03_seq st' = c03_seq st + 1 /\ Sorted c03_key_le (c03_local st') /\ c03_all_valid (c03_local st') /\ Permutation (c03_local st') (c03_phase_adds body ++ c03_remove_from 0 (c03_phase_dels body) (c03_local st)).
+Proof. exact c03_resize_phase_lemma. Qed.
+Print Assumptions C03_resize_phase.
+
+Example C03_resize_phase_nonvacuous :
+  let st := C03State false [C03Pair 1 0 0 true false; C03Pair 4 1 0 true false; C03Pair 6 2 1 true false] [] 5 true in
+  let body := [C03Add 9 7 0 false; C03MarkDeleted 1; C03Add 0 8 1 true; C03MarkDeleted 1] in
+  forallb (c03_is_phase_op 3) body = true /\ c03_phase_adds body ++ c03_remove_from 0 (c03_phase_dels body) (c03_local st)
+    = [C03Pair 9 7 0 false false; C03Pair 0 8 1 true false; C03Pair 1 0 0 true false; C03Pair 6 2 1 true false] /\ c03_local (fst (c03_run true false st ([C03Begin] ++ body ++ [C03End])))
+    = [C03Pair 0 8 1 true false; C03Pair 1 0 0 true false; C03Pair 6 2 1 true false; C03Pair 9 7 0 false false].
+Proof. vm_compute. repeat split; reflexivity. Qed.
+
+(* ---- GlobalLookupIndexSet, further clauses: the constructor with an explicit size; absent local numbers give a null
+   pointer; size() exceeds every local number; after renumberLocal() the reverse lookup inverts the map with NO hypothesis *)
+Theorem C03_reverse_sized : forall (l : list c03_pair) (sz : N) (p : c03_pair),
+  NoDup (map c03_loc l) -> In p l -> (forall q, In q l -> (c03_loc q < sz)%N) ->
+  c03_reverse_sized l sz (c03_loc p) = C03PairOut p.
+Proof. exact c03_reverse_sized_lemma. Qed.
+Print Assumptions C03_reverse_sized.
+Theorem C03_reverse_null : forall (l : list c03_pair) (i : N),
+  (i <= c03_max_loc l)%N -> (forall q, In q l -> c03_loc q <> i) -> c03_reverse l i = C03Null.
+Proof. exact c03_reverse_null_lemma. Qed.
+Print Assumptions C03_reverse_null.
+Theorem C03_lookup_size : forall l : list c03_pair,
+  (forall p, In p l -> (c03_loc p < N.succ (c03_max_loc l))%N) /\ (l = [] -> c03_lookup_size l = C03Num 1).
+Proof. exact c03_lookup_size_lemma. Qed.
+Print Assumptions C03_lookup_size.
+Theorem C03_reverse_after_renumber : forall (l : list c03_pair) (p : c03_pair),
+  In p (c03_renumber_from 0 l) -> c03_reverse (c03_renumber_from 0 l) (c03_loc p) = C03PairOut p.
+Proof. exact c03_reverse_after_renumber_lemma. Qed.
+Print Assumptions C03_reverse_after_renumber.
+
+Example C03_reverse_after_renumber_nonvacuous :
+  let l := c03_renumber_from 0 [C03Pair 3 9 0 true false; C03Pair 5 9 1 true false] in
+  c03_reverse l 1 = C03PairOut (C03Pair 5 1 1 true false) /\ c03_lookup_size l = C03Num 2.
+Proof. vm_compute. split; reflexivity. Qed.
+
+(* ---- what the state checks are for: WITHOUT checking there is a history that leaves a DELETED pair in the ground state
+   (markAsDeleted, then a second beginResize clears deletedEntries_, endResize skips the merge); WITH checking the second
+   beginResize of the same history is rejected and the ground state is clean *)
+Theorem C03_ndebug_unprotected :
+  exists ops : list c03_op,
+    let st := fst (c03_run false false c03_init ops) in
+    c03_resize st = false /\ existsb c03_del (c03_local st) = true /\ let st' := fst (c03_run true false c03_init ops) in
+    In C03InvalidState (snd (c03_run true false c03_init ops)) /\ existsb c03_del (c03_local st') = false.
+Proof. exact c03_ndebug_unprotected_lemma. Qed.
+Print Assumptions C03_ndebug_unprotected.
